@@ -1,6 +1,7 @@
 #!/bin/bash
 # tools/collect_seeds.sh : confirm every sub-agent result under /tmp/wt/*/seed_out and keep the confirmed ones
-for d in /tmp/wt/C*/seed_out/*/; do
+IDS="${*:-C*}"
+for d in $(for i in $IDS; do ls -d /tmp/wt/$i/seed_out/*/ 2>/dev/null; done); do
   [ -f "$d/patch.diff" ] && [ -f "$d/demo.rs" ] || continue
   id=$(basename $(dirname $(dirname "$d"))); name=$(basename "$d")
   dest=/verif/seeded/$id-$name
